@@ -13,6 +13,10 @@ PRNG_DRAWS = ("random::PRNG::get_random_value", "random::PRNG::get_random_bytes"
 def dep_hook(fl, bb, t, name):
     if name in PRNG_DRAWS:
         return "opaque"
+    hb = fl.facts.bodies.get(name) if name else None
+    if hb is not None and hb.kind != "closure" and hb.file == fl.body.file and not secret_params(hb) and \
+            any(callee_name(t_) in PRNG_DRAWS for _, t_ in hb.calls()):
+        return "opaque"     # a private helper that only draws randomness (`garbage_values(prng, n_bytes)`): a draw site of its own
     if name and name.endswith(("::len", "::is_empty", "::get_type", "::get_shape")):
         return []  # sizes and types are public, not the secret's value
     return list(range(len(t["args"])))
@@ -117,6 +121,13 @@ def run(facts, rep, tier):
                 eo = fd.origins(op, ikey)
                 e_params = {o[1] for o in eo if o[0] == "param" and o[1] in sp}
                 e_draws = {o for o in eo if o[0] == "call" and o[2] in PRNG_DRAWS}
+                if not e_params:
+                    # draws made inside a private helper that is not handed the secret (`garbage_values(prng, n_bytes)`)
+                    for o in eo:
+                        hb_ = facts.bodies.get(o[2]) if o[0] == "call" else None
+                        if hb_ is not None and hb_.kind != "closure" and hb_.file == b.file and \
+                                any(callee_name(t_) in PRNG_DRAWS for _, t_ in hb_.calls()):
+                            e_draws.add(o)
                 whole = fd.origins(["c", [src]], ikey) if src is not None else eo
                 w_params = {o[1] for o in whole if o[0] == "param" and o[1] in sp}
                 ident = ("vec", src, idx) if src is not None else ("val", frozenset(o[:3] for o in fl.origins(op, ikey) if o[0] == "call"))
